@@ -920,6 +920,47 @@ func cmdDrive(args []string) int {
 					}
 				}
 			}
+			if big && s%5 == 2 {
+				// a window that reaches the end of a long list (SubList to the end, Concat with an empty list, Clone),
+				// then shrink-and-grow on one of the two, overwrite on the other: neither may see the other's writes
+				ls := d.ids("L")
+				var long []int
+				for _, r := range ls {
+					if n := len(d.cur[r-1].E); n >= 40 && n < d.maxList-4 {
+						long = append(long, r)
+					}
+				}
+				if len(long) > 0 && len(d.cur) < 60 {
+					r := long[rng.Intn(len(long))]
+					none := model.Val{K: "none"}
+					var o model.Op
+					switch rng.Intn(3) {
+					case 0:
+						o = model.Op{Op: "SubList", R: r, I: rng.Intn(3), J: 0, V: none}
+					case 1:
+						o = model.Op{Op: "Clone", R: r, V: none}
+					default:
+						o = model.Op{Op: "SubList", R: r, I: 0, J: len(d.cur[r-1].E) - rng.Intn(2), V: none}
+					}
+					before := len(d.cur)
+					logged(o)
+					if len(d.cur) > before && d.cur[len(d.cur)-1].T == "L" {
+						x := len(d.cur) // the derived list
+						a, b := r, x
+						if rng.Intn(2) == 0 {
+							a, b = x, r
+						}
+						logged(model.Op{Op: "Pop", R: a, V: none})
+						logged(model.Op{Op: "Add", R: a, V: none, Vs: []model.Val{d.scalar()}})
+						if n := len(d.cur[b-1].E); n > 0 {
+							logged(model.Op{Op: "Replace", R: b, I: n - 1, V: d.scalar()})
+							logged(model.Op{Op: "Insert", R: b, I: n / 2, V: d.scalar()})
+						}
+						logged(model.Op{Op: "Delete", R: a, V: none, Ks: []int{0}})
+						logged(model.Op{Op: "Add", R: b, V: none, Vs: []model.Val{d.scalar(), d.scalar()}})
+					}
+				}
+			}
 		}
 		total += d.steps
 		aliens += d.alien
